@@ -33,7 +33,26 @@ pub struct VC(pub Tracked, pub [u64; 4]);
 pub const KEYS: [&str; 5] = ["k0", "k1", "k2", "k3", "k4"];
 
 fn key_type(k: usize) -> u8 {
-    [0u8, 1, 2, 0, 1][k]
+    [0u8, 1, 2, 0, 3][k]
+}
+
+/// A zero-sized value with a destructor (an RAII guard): it cannot carry an id, so it is audited by counting.
+#[derive(Debug)]
+pub struct VZ;
+pub static Z_CREATED: std::sync::atomic::AtomicUsize = std::sync::atomic::AtomicUsize::new(0);
+pub static Z_DROPPED: std::sync::atomic::AtomicUsize = std::sync::atomic::AtomicUsize::new(0);
+
+impl VZ {
+    fn new() -> Self {
+        Z_CREATED.fetch_add(1, std::sync::atomic::Ordering::SeqCst);
+        VZ
+    }
+}
+
+impl Drop for VZ {
+    fn drop(&mut self) {
+        Z_DROPPED.fetch_add(1, std::sync::atomic::Ordering::SeqCst);
+    }
 }
 
 #[derive(Clone, Copy, Debug)]
@@ -75,10 +94,11 @@ fn put_typed(store: &CoroutineLocal<'static>, k: usize, id: u64) -> Option<u64> 
             assert_eq!(v.1, format!("payload-{}", v.0 .0), "payload of returned value corrupted");
             v.0 .0
         }),
-        _ => store.put(KEYS[k], VC(Tracked::new(id), [id; 4])).map(|v| {
+        2 => store.put(KEYS[k], VC(Tracked::new(id), [id; 4])).map(|v| {
             assert_eq!(v.1, [v.0 .0; 4], "payload of returned value corrupted");
             v.0 .0
         }),
+        _ => store.put(KEYS[k], VZ::new()).map(|_| u64::MAX),
     }
 }
 
@@ -92,8 +112,10 @@ fn get_typed(store: &CoroutineLocal<'static>, k: usize, mutable: bool) -> Option
             v.1.pop();
             v.0 .0
         }),
-        (_, false) => store.get::<VC>(KEYS[k]).map(|v| v.0 .0),
-        (_, true) => store.get_mut::<VC>(KEYS[k]).map(|v| v.0 .0),
+        (2, false) => store.get::<VC>(KEYS[k]).map(|v| v.0 .0),
+        (2, true) => store.get_mut::<VC>(KEYS[k]).map(|v| v.0 .0),
+        (_, false) => store.get::<VZ>(KEYS[k]).map(|_| u64::MAX),
+        (_, true) => store.get_mut::<VZ>(KEYS[k]).map(|_| u64::MAX),
     }
 }
 
@@ -101,7 +123,8 @@ fn remove_typed(store: &CoroutineLocal<'static>, k: usize) -> Option<u64> {
     match key_type(k) {
         0 => store.remove::<VA>(KEYS[k]).map(|v| v.0 .0),
         1 => store.remove::<VB>(KEYS[k]).map(|v| v.0 .0),
-        _ => store.remove::<VC>(KEYS[k]).map(|v| v.0 .0),
+        2 => store.remove::<VC>(KEYS[k]).map(|v| v.0 .0),
+        _ => store.remove::<VZ>(KEYS[k]).map(|_| u64::MAX),
     }
 }
 
@@ -122,7 +145,7 @@ impl LocalModel {
                 let id = self.next_id;
                 self.next_id += 1;
                 let got = put_typed(store, k, id);
-                let want = self.maps[s].insert(k, id);
+                let want = self.maps[s].insert(k, if key_type(k) == 3 { u64::MAX } else { id });
                 if got.is_some() {
                     self.returned_values += 1;
                 }
@@ -170,6 +193,13 @@ pub fn drop_audit(id_lo: u64, id_hi: u64) -> Result<(usize, usize), (String, Str
     let never: Vec<u64> = created.iter().copied().filter(|i| !counts.contains_key(i)).collect();
     if !never.is_empty() {
         return Err(("stored-values-not-dropped-with-their-owner".into(), format!("{} of {} values never dropped, e.g. ids {:?}", never.len(), created.len(), &never[..never.len().min(5)])));
+    }
+    let (zc, zd) = (Z_CREATED.load(std::sync::atomic::Ordering::SeqCst), Z_DROPPED.load(std::sync::atomic::Ordering::SeqCst));
+    if zd > zc {
+        return Err(("value-dropped-twice".into(), format!("zero-sized guards: {zc} created, {zd} dropped")));
+    }
+    if zd < zc {
+        return Err(("stored-values-not-dropped-with-their-owner".into(), format!("zero-sized guards: {zc} created, only {zd} dropped")));
     }
     Ok((created.len(), counts.len()))
 }
